@@ -134,6 +134,17 @@ def run_case(case, monitors=(), sim_kwargs=None, qcap=S.QCAP, final_quiesce=True
             elif k == "T":
                 if sim.clock is not None:
                     sim.clock.advance(e[1])
+            elif k == "B":
+                # the application polls CloudSync.busy (a public property that itself takes an event from each provider)
+                w = sim.world
+                prev = w.ctx
+                w.ctx = "engine"
+                try:
+                    sim.cs.busy                                         # pylint: disable=pointless-statement
+                except Exception:                                       # noqa
+                    obs.problems.append(("busy_raised", S.fmt_exc()[-300:]))
+                finally:
+                    w.ctx = prev
             else:
                 raise ValueError(k)
             if sim.world.dead:
